@@ -19,6 +19,11 @@ def faultReported (hit : Bool) (err : Bool) : Bool := !hit || err
     same state, in the same order: a failed call never makes the controller take a *different* action -/
 def faultWritesWithin (hit : Bool) (writes baseWrites : List String) : Bool := !hit || isSubseq writes baseWrites
 
+/-- a mutating call answered with a 409 Conflict may be retried inside the action (`retry.RetryOnConflict`): then either
+    the failure is returned, or the action has done everything the undisturbed action does -/
+def conflictReportedOrCompleted (hit : Bool) (err : Bool) (writes baseWrites : List String) : Bool :=
+  !hit || err || isSubseq baseWrites writes
+
 theorem isSubseq_refl : ∀ l : List String, isSubseq l l = true
   | [] => rfl
   | x :: xs => by simp [isSubseq, isSubseq_refl xs]
